@@ -274,9 +274,7 @@ impl RecvWindow {
 
         rem_msg_len -= payload.len() as u16;
         if !hdr.is_final() && !payload.is_empty() && rem_msg_len == 0 {
-            warn!(
-                "RX data integrity failure: Packet reaches the message length but is not final"
-            );
+            warn!("RX data integrity failure: Packet reaches the message length but is not final");
             Err(ErrorCode::InvalidData)?;
         }
 
